@@ -105,7 +105,7 @@ def _run(cmd, timeout=1800):
     return p.returncode, p.stdout + p.stderr
 
 
-def prepare(prop: str, extra_modules=()) -> LeanStatus:
+def prepare(prop: str, extra_modules=(), tier: str = "quick") -> LeanStatus:
     """translator → lake build → audit, serialised by a file lock."""
     import translate
     st = LeanStatus()
@@ -186,6 +186,13 @@ def prepare(prop: str, extra_modules=()) -> LeanStatus:
             st.add("translator", "bridge", False, errs["<translator>"])
         hits = forbidden_hits()
         st.add("no-sorry-axiom-native_decide", "audit", not hits, "; ".join(hits[:5]))
+        if tier == "thorough" and module_ok:
+            # independent re-check of the compiled module by the toolchain's kernel re-checker
+            try:
+                rc4, log4 = _run(["lake", "env", "leanchecker", f"GapicModel.Props.{prop}"], timeout=1800)
+                st.add(f"leanchecker:GapicModel.Props.{prop}", "audit", rc4 == 0, (log4.strip()[-200:] or "re-checked"))
+            except Exception as e:
+                st.add(f"leanchecker:GapicModel.Props.{prop}", "audit", False, f"{type(e).__name__}: {e}")
     st.build_s = time.time() - t0
     return st
 
